@@ -52,6 +52,8 @@ def cases(tier, seed):
             yield {"kind": "single", "mbatch": mb, "pattern": "m", "lik": lik, "depth": depth, "fast_pred_var": fpv, "detach": True, "n": 25, "m": 2, "iterative": True, "seed": rnd.randrange(10**6)}
         for lik, fpv in itertools.product(["gauss", "fixed", "fixed+learn"], [False, True]):
             yield {"kind": "as_function", "lik": lik, "fast_pred_var": fpv, "seed": rnd.randrange(10**6)}
+        for how in ("fixed_noise_missing", "sgpr", "kiss_grad_caches", "bad_target_shape"):
+            yield {"kind": "failed_fantasy", "how": how, "seed": rnd.randrange(10**6), "hostile": True}
         for pol, fpv in itertools.product(["mask", "fill"], [False, True]):
             yield {"kind": "nan_source", "policy": pol, "fast_pred_var": fpv, "n": 6, "m": 2, "seed": rnd.randrange(10**6), "hostile": True}
 
@@ -167,6 +169,8 @@ def run_case(case, ctx):
         return _mt(case, ctx, g)
     if case["kind"] == "modellist":
         return _modellist(case, ctx, g)
+    if case["kind"] == "failed_fantasy":
+        return _failed_fantasy(case, ctx, g)
     if case["kind"] == "nan_source":
         return _nan_source(case, ctx, g)
     if case["kind"] == "as_function":
@@ -523,6 +527,58 @@ def _modellist(case, ctx, g):
                 ctx.close("fantasy_mean", o.mean, rm, tol, cls="modellist:mean:" + kind + (":fpv" if fpv else ""))
                 ctx.close("fantasy_covar", o.covariance_matrix, rc, tol, cls="modellist:covar:" + kind + (":fpv" if fpv else ""))
             cur = fm
+    ctx.cell({k: v for k, v in case.items() if k != "seed"})
+
+
+def _failed_fantasy(case, ctx, g):
+    """get_fantasy_model calls that are refused (explicit error): the source model is exactly what it was"""
+    import torch
+
+    import gpytorch
+    from vf import util
+
+    K, L = gpytorch.kernels, gpytorch.likelihoods
+    n = 7
+    X, y = util.rand(g, n, 2) * 2 - 1, util.randn(g, n)
+    how = case["how"]
+    if how == "fixed_noise_missing":
+        lik = L.FixedNoiseGaussianLikelihood(util.rand(g, n) * 0.2 + 0.05)
+        kern = K.ScaleKernel(K.MaternKernel(nu=2.5))
+    elif how == "sgpr":
+        lik = L.GaussianLikelihood()
+        kern = K.InducingPointKernel(K.ScaleKernel(K.RBFKernel()), inducing_points=util.randn(g, 3, 2) * 0.5, likelihood=lik)
+    else:
+        lik = L.GaussianLikelihood()
+        kern = K.ScaleKernel(K.GridInterpolationKernel(K.RBFKernel(), grid_size=8, num_dims=2, grid_bounds=[(-1.5, 1.5), (-1.5, 1.5)])) if how == "kiss_grad_caches" else K.ScaleKernel(K.RBFKernel())
+    model = util.GP(X, y, lik, gpytorch.means.ConstantMean(), kern)
+    util.randomize(model, g, 0.4)
+    model.eval()
+    xs, probe = util.rand(g, 3, 2) * 2 - 1, util.rand(g, 2, 2) * 2 - 1
+    if how == "kiss_grad_caches":
+        model(xs)  # autograd on: the kernel's caches are non-leaf tensors, which deepcopy refuses
+    with torch.no_grad():
+        model(xs)
+    snap = _snapshot(model, probe)
+    Xf, yf = util.rand(g, 2, 2) * 2 - 1, util.randn(g, 2)
+    if how == "bad_target_shape":
+        yf = util.randn(g, 3, 5)
+    raised = None
+    try:
+        with torch.no_grad():
+            model.get_fantasy_model(Xf, yf)
+    except Exception as e:
+        raised = type(e).__name__
+    if raised is None:
+        ctx.reject(f"get_fantasy_model accepted the call ({how})")
+        return
+    ctx.hit("fantasy_refused:" + raised)
+    for attr in ("train_inputs", "train_targets", "likelihood", "prediction_strategy"):
+        ctx.expect("source_untouched", getattr(model, attr) is not None, f"after a refused get_fantasy_model ({how}: {raised}) the source model's {attr} is None", changed=[attr], refused=how)
+    if model.train_inputs is not None and model.train_targets is not None and model.likelihood is not None:
+        try:
+            _ensure_unchanged(ctx, model, snap, probe, f"refused fantasy ({how}: {raised})")
+        except Exception as e:
+            ctx.fail("source_untouched", f"the source model cannot predict after a refused get_fantasy_model ({how}): {type(e).__name__}: {str(e)[:100]}", "raise", refused=how)
     ctx.cell({k: v for k, v in case.items() if k != "seed"})
 
 
